@@ -196,5 +196,6 @@ func TestCheck(t *testing.T) {
 			run.Sample(map[string]any{"case": caseID, "transport": map[bool]string{true: "grpc", false: "direct"}[useGRPC], "script": w.Trace})
 		}
 	})
-	run.Finish("seeded sequential interleavings (15-60 steps) of connect+negotiate / announce / operate / disconnect by up to 4 live sessions (direct streams; 1 in 25 scripts over real gRPC); announced ids are ties, +-1 in either half, high-word-only and opposing-halves neighbours of the current maximum; each batch of 1-3 operations is stamped with the session's last id, the server maximum, a stale id, a future id, another session's id, or nothing; one multi-operation request in three stamps its operations individually (a correctly stamped operation next to stale / foreign ones in the same request). After EVERY step the complete hooked state (RIB contents, reference counters, held operations, highest id, primary, session table) is compared with the model, and every other session's stream must be silent. Distinct = by script", 100, false)
+	concurrentPhase(run)
+	run.Finish("seeded sequential interleavings (15-60 steps) of connect+negotiate / announce / operate / disconnect by up to 4 live sessions (direct streams; 1 in 25 scripts over real gRPC); announced ids are ties, +-1 in either half, high-word-only and opposing-halves neighbours of the current maximum; each batch of 1-3 operations is stamped with the session's last id, the server maximum, a stale id, a future id, another session's id, or nothing; one multi-operation request in three stamps its operations individually (a correctly stamped operation next to stale / foreign ones in the same request). After EVERY step the complete hooked state (RIB contents, reference counters, held operations, highest id, primary, session table) is compared with the model, and every other session's stream must be silent. Plus a concurrent phase: 2-6 negotiated sessions announce different ids at the same moment (yield points of the election perturbed), round after round; afterwards the hooked highest id must be the highest announced and of one operation per session only the one of the session that announced the maximum may be programmed. Distinct = by script", 100, false)
 }
